@@ -50,4 +50,48 @@ impl VisitMut for Desugar {
     }
 }
 
-pub fn desugar_fn(m: &mut ImplItemFn) { Desugar.visit_impl_item_fn_mut(m); }
+fn diverges(e: &Expr) -> bool {
+    match e {
+        Expr::Return(_) => true,
+        Expr::Block(b) => matches!(b.block.stmts.last(), Some(Stmt::Expr(Expr::Return(_), _))),
+        _ => false,
+    }
+}
+
+/// `let PAT = match S { P1 => E1, .., Pk => return R, .. }; REST`  ->  `match S { P1 => { let PAT = E1; REST }, .., Pk => return R, .. }`
+/// (the continuation is duplicated into the arms that produce a value; only when some arm diverges and the form is not
+/// the `Some(a) => a, None => return` one the translator reads directly).  Applied to the first such `let` of a block;
+/// the duplicated `REST` is itself desugared recursively.
+/// applied to the function's top-level block and, recursively, to the arm blocks it creates — all of them are in tail
+/// position of the function, so a `return` in a sibling arm and the value of the block coincide
+fn letmatch_block(b: &mut Block) {
+    let pos = b.stmts.iter().position(|st| match st {
+        Stmt::Local(l) => match &l.init {
+            Some(init) if init.diverge.is_none() => match &*init.expr {
+                Expr::Match(mm) => mm.arms.iter().any(|a| diverges(&a.body)) && mm.arms.iter().all(|a| a.guard.is_none())
+                    && !(mm.arms.len() == 2 && mm.arms.iter().any(|a| matches!(&a.pat, Pat::TupleStruct(_))) && mm.arms.iter().any(|a| matches!(&*a.body, Expr::Return(r) if r.expr.is_none()))),
+                _ => false,
+            },
+            _ => false,
+        },
+        _ => false,
+    });
+    let Some(i) = pos else { return };
+    // only when nothing before it can leave the block early in a way the duplication would disturb: plain `let`s / expression statements
+    let rest: Vec<Stmt> = b.stmts.split_off(i + 1);
+    let Some(Stmt::Local(l)) = b.stmts.pop() else { unreachable!() };
+    let pat = l.pat.clone();
+    let Some(init) = l.init else { unreachable!() };
+    let Expr::Match(mut mm) = *init.expr else { unreachable!() };
+    for arm in mm.arms.iter_mut() {
+        if diverges(&arm.body) { continue; }
+        let body = &arm.body;
+        let mut nb: Block = parse_quote!({ let #pat = #body; #(#rest)* });
+        letmatch_block(&mut nb);
+        arm.body = Box::new(Expr::Block(ExprBlock { attrs: vec![], label: None, block: nb }));
+        if arm.comma.is_none() { arm.comma = Some(Default::default()); }
+    }
+    b.stmts.push(Stmt::Expr(Expr::Match(mm), None));
+}
+
+pub fn desugar_fn(m: &mut ImplItemFn) { Desugar.visit_impl_item_fn_mut(m); letmatch_block(&mut m.block); }
